@@ -152,3 +152,15 @@ package core
 //@ ensures[recheck] result && ncalls(verifyTxWitnesses) == 0 ==> forall(i, 0, len(t.Scripts), scparser.stdScript(t.Scripts[i].VerificationScript))
 //@ loop 0 invariant[scan] forall(j, 0, $i, scparser.stdScript(t.Scripts[j].VerificationScript))
 //@ loop 0 invariant[calls] ncalls(verifyTxWitnesses) == 0
+
+// (C04) The node's token transfer log (and every other consequence of a notification) is fed from
+// the notifications of executions that HALTed only: a faulted transaction leaves no Transfer there.
+// This is the goroutine of storeBlock that stores execution results.
+//@ prop C04
+//@ import vmstate github.com/nspcc-dev/neo-go/pkg/vm/vmstate
+//@ func (*Blockchain).storeBlock$1
+//@ may-panic
+//@ opt frame off
+//@ call handleNotification requires[halted] aer.VMState == vmstate.Halt
+//@ call handleNotification ensures[stable] aer.VMState == vmstate.Halt   // trusted: handling a notification does not rewrite the execution result it came from
+//@ loop 1 invariant[halted] aer.VMState == vmstate.Halt
